@@ -333,6 +333,9 @@ func edgeBundle(r *lib.RNG, b *lib.Bundle) (*lib.Bundle, string) {
 				continue
 			}
 			m := lib.Pick(r, sites[i].Muts)
+			if sites[i].Norm == ".Block.Transactions" && strings.HasPrefix(m, "append") {
+				continue // a nil transaction panics inside a commitment worker goroutine (unrecoverable)
+			}
 			return tamper(c, i, m), "site:" + sites[i].Norm + ":" + m
 		}
 		return c, "unchanged"
